@@ -1,5 +1,7 @@
 import Swat4.Model.UseCases.Discovery
 import Swat4.Gen.Facts
+import Swat4.Lemmas.C13Run
+import Swat4.Lemmas.C13Exp
 /-!
 # C13 — A probe outcome transforms the latest server state and nothing else
 
@@ -8,7 +10,7 @@ model `detailsprober`, `portprober` and `probeserver`; `AbsState.update` is the 
 `Repository.Update` (C09/C11).
 -/
 namespace Swat4.C13
-open Swat4 Swat4.UC Std
+open Swat4 Swat4.UC Std Swat4.C13Run
 
 /-! ## the transformation table: all 512 words × 2 goals × 3 outcomes -/
 
@@ -218,6 +220,448 @@ example : ∃ (s : AbsState) (stale latest : Server) (u : Int),
   let latest : Server := { stale with refreshedAt := some 9, version := 4 }
   exact ⟨{ servers := (∅ : ExtTreeMap Nat SRow).insert a.key ⟨latest, 9⟩ }, stale, latest, 9,
     by simp [AbsState.getRow, stale, latest], rfl, by decide⟩
+
+/-! ## the executed use case: `(probe prb outcome).run s now`, whole result state -/
+
+/-- **clause "a failure with retries left only adds the retry mark and re-queues the same probe with one more
+retry, ready after floor(e^retries) seconds" — on an executed run.**  `probeserver.Execute` (probeserver.go:62-80,
+112-160) run to completion on a registry holding `latest` at the probed address, the probe failed, budget left.
+The result is given as an equation on the **whole** state: the registry differs only at the probed address, where
+`handleRetry goal latest` is stored one version up with update time `now` (`save`); the queue is the old queue plus
+exactly one item — the same probe (address, port, goal, max) with `retries + 1`, ready at
+`now + 1 s · expFloor (retries + 1)`, without expiry (`AddBetween(…, after, repositories.NC)`, probeserver.go:104) and
+with the next fresh id; the instance table is untouched; the use case returns `ErrProbeRetried`.
+`haddr` is the store invariant "a record is stored under its own address". -/
+theorem probe_retry_run (s : AbsState) (now : Int) (prb : Probe) (latest : Server) (u : Int)
+    (hrow : s.getRow prb.addr = some ⟨latest, u⟩) (haddr : latest.addr = prb.addr)
+    (h : prb.retries < prb.maxRetries) :
+    (probe prb none).run s now =
+      ({ servers := s.servers.insert prb.addr.key ⟨{ handleRetry prb.goal latest with version := latest.version + 1 }, now⟩,
+         instances := s.instances,
+         queue := s.queue ++ [⟨s.nextId, { prb with retries := prb.retries + 1 }, now + second * expFloor (prb.retries + 1), none⟩],
+         nextId := s.nextId + 1 }, .retried) := by
+  rw [probe_unfold]
+  simp only [Prog.run_call, Call.exec, AbsState.get, hrow]
+  have := probeRetry_run s now prb latest latest u (haddr ▸ hrow) rfl (Or.inr rfl) h
+  rw [haddr] at this
+  exact this
+
+/-- **clause "only the final failure marks the server as having no details / no port" — on an executed run**
+(`retries ≥ max`: `IncRetries` refuses, probeserver.go:118-128, `fail` 162-182): the stored record is `handleFailure goal`
+of the **latest** stored record, one version up; the queue is unchanged (nothing re-queued: "never beyond its retry
+budget"); nothing else changes; the use case returns `ErrOutOfRetries`. -/
+theorem probe_failure_run (s : AbsState) (now : Int) (prb : Probe) (latest : Server) (u : Int)
+    (hrow : s.getRow prb.addr = some ⟨latest, u⟩) (haddr : latest.addr = prb.addr)
+    (h : prb.retries ≥ prb.maxRetries) :
+    (probe prb none).run s now =
+      ({ servers := s.servers.insert prb.addr.key ⟨{ handleFailure prb.goal latest with version := latest.version + 1 }, now⟩,
+         instances := s.instances, queue := s.queue, nextId := s.nextId }, .outOfRetries) := by
+  rw [probe_unfold]
+  simp only [Prog.run_call, Call.exec, AbsState.get, hrow]
+  rw [probeRetry_final prb latest h]
+  have := probeFail_run s now prb.goal latest latest u (haddr ▸ hrow) rfl (Or.inr rfl)
+  rw [haddr] at this
+  exact this
+
+/-- **clause "success stores the probed details (and query port), refreshes the server …" — on an executed run**
+(probeserver.go:82-100): stored record = `handleSuccess goal res now` of the latest stored record, one version up;
+queue, instances, id counter unchanged. -/
+theorem probe_success_run (s : AbsState) (now : Int) (prb : Probe) (res : ProbeResult) (latest : Server) (u : Int)
+    (hrow : s.getRow prb.addr = some ⟨latest, u⟩) (haddr : latest.addr = prb.addr) :
+    (probe prb (some res)).run s now =
+      ({ servers := s.servers.insert prb.addr.key ⟨{ handleSuccess prb.goal res now latest with version := latest.version + 1 }, now⟩,
+         instances := s.instances, queue := s.queue, nextId := s.nextId }, .success) := by
+  rw [probe_unfold]
+  simp only [Prog.run_call, Call.exec, AbsState.get, hrow]
+  have := probeSuccessRest_run s now prb res latest latest u (haddr ▸ hrow) rfl (Or.inr rfl)
+  rw [haddr] at this
+  exact this
+
+/-- the probed server is not stored (removed before the probe was popped): `Get` fails with `ErrServerNotFound`,
+`Execute` returns that error before probing (probeserver.go:63-70) — whatever the outcome would have been, **nothing**
+is written: no record is created, nothing is re-queued. -/
+theorem probe_missing_run (s : AbsState) (now : Int) (prb : Probe) (outcome : Option ProbeResult)
+    (hrow : s.getRow prb.addr = none) :
+    (probe prb outcome).run s now = (s, .error (.repo .serverNotFound)) := by
+  rw [probe_unfold]
+  simp only [Prog.run_call, Call.exec, AbsState.get, hrow]
+  rfl
+
+/-! ## the same with one concurrent commit between the probe's `Get` and its write -/
+
+/-- **C13 for a retry, on a two-client history, whole state.**  The probe's `Get` returned `r0`; then *any* call `W`
+of another component commits (hypotheses: afterwards the address holds `w`, whose version is higher unless it is `r0`
+itself); then the probe runs on.  The final state is `W`'s state with `handleRetry goal w` — the retry transformation of
+the record **as `W` left it** — stored one version up, plus the one re-queued probe; everything else is exactly as `W`
+left it ("the concurrent update's own changes survive … and nothing else"). -/
+theorem probe_retry_race {β : Type} (s0 : AbsState) (t0 tW now : Int) (prb : Probe) (r0 : Server) (u0 : Int)
+    (W : Call β) (w : Server) (uw : Int)
+    (hrow0 : s0.getRow prb.addr = some ⟨r0, u0⟩) (ha0 : r0.addr = prb.addr)
+    (hW : (W.exec s0 tW).1.getRow prb.addr = some ⟨w, uw⟩) (haw : w.addr = prb.addr)
+    (hmono : w.version > r0.version ∨ w = r0) (h : prb.retries < prb.maxRetries) :
+    raceRun (probe prb none) 1 t0 W tW now s0 =
+      ({ servers := (W.exec s0 tW).1.servers.insert prb.addr.key ⟨{ handleRetry prb.goal w with version := w.version + 1 }, now⟩,
+         instances := (W.exec s0 tW).1.instances,
+         queue := (W.exec s0 tW).1.queue ++
+           [⟨(W.exec s0 tW).1.nextId, { prb with retries := prb.retries + 1 }, now + second * expFloor (prb.retries + 1), none⟩],
+         nextId := (W.exec s0 tW).1.nextId + 1 }, .retried) := by
+  unfold raceRun
+  rw [probe_step_get s0 t0 prb none r0 u0 hrow0]
+  have := probeRetry_run (W.exec s0 tW).1 now prb r0 w uw (ha0 ▸ hW) (haw.trans ha0.symm) hmono h
+  rw [ha0] at this
+  exact this
+
+/-- the same history for the final failure -/
+theorem probe_failure_race {β : Type} (s0 : AbsState) (t0 tW now : Int) (prb : Probe) (r0 : Server) (u0 : Int)
+    (W : Call β) (w : Server) (uw : Int)
+    (hrow0 : s0.getRow prb.addr = some ⟨r0, u0⟩) (ha0 : r0.addr = prb.addr)
+    (hW : (W.exec s0 tW).1.getRow prb.addr = some ⟨w, uw⟩) (haw : w.addr = prb.addr)
+    (hmono : w.version > r0.version ∨ w = r0) (h : prb.retries ≥ prb.maxRetries) :
+    raceRun (probe prb none) 1 t0 W tW now s0 =
+      ({ servers := (W.exec s0 tW).1.servers.insert prb.addr.key ⟨{ handleFailure prb.goal w with version := w.version + 1 }, now⟩,
+         instances := (W.exec s0 tW).1.instances, queue := (W.exec s0 tW).1.queue, nextId := (W.exec s0 tW).1.nextId },
+       .outOfRetries) := by
+  unfold raceRun
+  rw [probe_step_get s0 t0 prb none r0 u0 hrow0]
+  simp only
+  rw [probeRetry_final prb r0 h]
+  have := probeFail_run (W.exec s0 tW).1 now prb.goal r0 w uw (ha0 ▸ hW) (haw.trans ha0.symm) hmono
+  rw [ha0] at this
+  exact this
+
+/-- the same history for a success (clock fixed at `now` after the commit: both `HandleSuccess` calls stamp `now`;
+`C13_success_after_concurrent_commit` covers distinct clock values) -/
+theorem probe_success_race {β : Type} (s0 : AbsState) (t0 tW now : Int) (prb : Probe) (res : ProbeResult) (r0 : Server) (u0 : Int)
+    (W : Call β) (w : Server) (uw : Int)
+    (hrow0 : s0.getRow prb.addr = some ⟨r0, u0⟩) (ha0 : r0.addr = prb.addr)
+    (hW : (W.exec s0 tW).1.getRow prb.addr = some ⟨w, uw⟩) (haw : w.addr = prb.addr)
+    (hmono : w.version > r0.version ∨ w = r0) :
+    raceRun (probe prb (some res)) 1 t0 W tW now s0 =
+      ({ servers := (W.exec s0 tW).1.servers.insert prb.addr.key ⟨{ handleSuccess prb.goal res now w with version := w.version + 1 }, now⟩,
+         instances := (W.exec s0 tW).1.instances, queue := (W.exec s0 tW).1.queue, nextId := (W.exec s0 tW).1.nextId },
+       .success) := by
+  unfold raceRun
+  rw [probe_step_get s0 t0 prb (some res) r0 u0 hrow0]
+  have := probeSuccessRest_run (W.exec s0 tW).1 now prb res r0 w uw (ha0 ▸ hW) (haw.trans ha0.symm) hmono
+  rw [ha0] at this
+  exact this
+
+/-- the concurrent call **removed** the server: the retry is queued all the same (the `AddBetween` precedes the
+`Update`, probeserver.go:132 vs 143), the `Update` fails with `ErrServerNotFound` (servers.go:134-137) and the registry
+stays exactly as the remover left it — a removed server is not resurrected by a probe outcome.  (The orphan retry
+finds no server when popped: `probe_missing_run`.) -/
+theorem probe_retry_race_removed {β : Type} (s0 : AbsState) (t0 tW now : Int) (prb : Probe) (r0 : Server) (u0 : Int)
+    (W : Call β)
+    (hrow0 : s0.getRow prb.addr = some ⟨r0, u0⟩) (ha0 : r0.addr = prb.addr)
+    (hW : (W.exec s0 tW).1.getRow prb.addr = none) (h : prb.retries < prb.maxRetries) :
+    raceRun (probe prb none) 1 t0 W tW now s0 =
+      ({ servers := (W.exec s0 tW).1.servers, instances := (W.exec s0 tW).1.instances,
+         queue := (W.exec s0 tW).1.queue ++
+           [⟨(W.exec s0 tW).1.nextId, { prb with retries := prb.retries + 1 }, now + second * expFloor (prb.retries + 1), none⟩],
+         nextId := (W.exec s0 tW).1.nextId + 1 }, .error (.repo .serverNotFound)) := by
+  unfold raceRun
+  rw [probe_step_get s0 t0 prb none r0 u0 hrow0]
+  exact probeRetry_run_removed (W.exec s0 tW).1 now prb r0 (ha0 ▸ hW) h
+
+/-! ## field level: what each outcome handler writes -/
+
+/-- **field level, success** — all seven fields of the result.  Mirrors `DetailsProber.HandleSuccess`
+(detailsprober.go:101-111: `UpdateDetails(det)` = `Details = det; Info = det.Info` (server.go:89-92), `Refresh(now)`
+(server.go:94-96), `UpdateDiscoveryStatus(Info|Details)`, `ClearDiscoveryStatus(NoDetails|DetailsRetry)`; `QueryPort` is not
+assigned) and `PortProber.HandleSuccess` (portprober.go:208-219: additionally `svr.QueryPort = result.Port`, line 213, and
+the port bits).  Address and version are untouched by both. -/
+theorem handleSuccess_fields (g : Goal) (res : ProbeResult) (now : Int) (s : Server) :
+    (handleSuccess g res now s).details = res.details ∧
+    (handleSuccess g res now s).info = res.details.info ∧
+    (handleSuccess g res now s).refreshedAt = some now ∧
+    (handleSuccess g res now s).queryPort = (match g with | .port => res.port | .details => s.queryPort) ∧
+    (handleSuccess g res now s).status = successStatus g s.status ∧
+    (handleSuccess g res now s).addr = s.addr ∧
+    (handleSuccess g res now s).version = s.version := by
+  rw [handleSuccess_eq]; exact ⟨rfl, rfl, rfl, rfl, rfl, rfl, rfl⟩
+
+/-- **field level, retry**: `HandleRetry` touches only the status word (detailsprober.go:113-116,
+portprober.go:221-224: a single `UpdateDiscoveryStatus(…Retry)`) -/
+theorem handleRetry_only_status (g : Goal) (s : Server) :
+    handleRetry g s = { s with status := retryStatus g s.status } := rfl
+
+/-- **field level, final failure**: `HandleFailure` touches only the status word (detailsprober.go:118-122,
+portprober.go:226-230: `ClearDiscoveryStatus` + `UpdateDiscoveryStatus`); in particular the stored info, details, query
+port and refresh time of a delisted server are kept -/
+theorem handleFailure_only_status (g : Goal) (s : Server) :
+    handleFailure g s = { s with status := failureStatus g s.status } := rfl
+
+/-! ## the retry delay table is Go's `math.Exp` -/
+
+/-- **the retry delay is Go's.**  Regenerated `Gen/Facts.lean`, section `c13retry` (harness/internal/c13/facts.go):
+(1) the source text of `retryDelay := …` in `probeserver.retry` (probeserver.go:130) is still the expression the fact
+generator evaluates; (2) the model's table `expFloor n` equals `int64(time.Duration(math.Exp(float64(n))))` as computed
+by Go for every `n = 0..20`; (3) `second * expFloor n` equals `int64(time.Second * time.Duration(math.Exp(float64(n))))`,
+the duration handed to `clock.Now().Add`.  Complete finite table, by kernel evaluation. -/
+theorem expFloor_matches_go :
+    Facts.retryDelayExprGo = "time.Second * time.Duration(math.Exp(float64(retries)))" ∧
+    (List.range 21).map (fun (n : Nat) => expFloor (n : Int)) = Facts.expFloorGo ∧
+    (List.range 21).map (fun (n : Nat) => second * expFloor (n : Int)) = Facts.retryDelayGoNs := by decide
+
+/-! ## outside `hmono`: remove + re-add during the probe (ABA) -/
+
+/-- **what `hmono` excludes — remove + re-add during the probe (ABA).**  A client read `stale`; the server is removed
+(by a client holding the same copy) and registered anew (`fresh`, whose version counter restarted, so
+`fresh.version < stale.version`: a new registration is saved at version 1, any stored record has version ≥ 1).  Then the
+first client's `Update (f stale)` with callback `f`: the stored version is **not** newer, so the conflict callback is not
+consulted and `f stale` — built from the record of the *previous* incarnation — **overwrites the fresh registration**,
+at version `stale.version + 1`.  So without `hmono` the property fails in the model: the record stored is the
+transformation of the stale copy, not of the latest record, and the re-registration's own data does not survive. -/
+theorem aba_overwrites_fresh_registration (s0 : AbsState) (t1 t2 t3 : Int) (f : Server → Server) (hf : Stable f)
+    (stale : Server) (u : Int) (fresh : Server)
+    (hrow : s0.getRow stale.addr = some ⟨stale, u⟩)
+    (hfa : fresh.addr = stale.addr) (hlow : fresh.version < stale.version) :
+    let s1 := ((Call.removeServer stale fun x => some x).exec s0 t1).1
+    let s2 := ((Call.addServer fresh fun _ => none).exec s1 t2).1
+    s1.getRow stale.addr = none ∧
+    s2.getRow stale.addr = some ⟨{ fresh with version := fresh.version + 1 }, t2⟩ ∧
+    (Call.updateServer (f stale) fun x => some (f x)).exec s2 t3 =
+      ({ s2 with servers := s2.servers.insert stale.addr.key ⟨{ f stale with version := stale.version + 1 }, t3⟩ },
+       .ok { f stale with version := stale.version + 1 }) := by
+  intro s1 s2
+  have h1 : s1 = { s0 with servers := s0.servers.erase stale.addr.key } := by
+    show ((s0.remove stale fun x => some x)).1 = _
+    rw [remove_eq s0 stale _ stale u hrow (Int.le_refl _)]
+  have hg1 : s1.getRow stale.addr = none := by
+    rw [h1]; simp only [AbsState.getRow, ExtTreeMap.getElem?_erase_self]
+  have h2 : s2 = { s1 with servers := s1.servers.insert fresh.addr.key ⟨{ fresh with version := fresh.version + 1 }, t2⟩ } := by
+    show (s1.add t2 fresh fun _ => none).1 = _
+    rw [add_fresh_eq s1 t2 fresh _ (hfa ▸ hg1)]
+  have hg2 : s2.getRow stale.addr = some ⟨{ fresh with version := fresh.version + 1 }, t2⟩ := by
+    rw [h2]; simp only [AbsState.getRow, hfa, ExtTreeMap.getElem?_insert_self]
+  refine ⟨hg1, hg2, ?_⟩
+  change s2.update t3 (f stale) (fun x => some (f x)) = _
+  have hfa' := (hf stale).1
+  have hfv := (hf stale).2
+  have := update_overwrite_eq s2 t3 (f stale) (fun x => some (f x)) { fresh with version := fresh.version + 1 } t2
+    (hfa' ▸ hg2) (by rw [hfv]; show fresh.version + 1 ≤ stale.version; omega)
+  rw [this]
+  simp only [hfa', hfv]
+
+/-- the witness: a listed server (master, info, details, port) at version 3, last refreshed at 5 … -/
+def abaStale : Server :=
+  { addr := ⟨16843009, 10480⟩, queryPort := 10481, status := 78#9, info := [.int 16], details := ⟨[.int 16], [], []⟩,
+    refreshedAt := some 5, version := 3 }
+/-- … and its fresh registration by a heartbeat at 20 (`NewFromAddr`, reported: master, info), not yet saved -/
+def abaFresh : Server :=
+  { addr := ⟨16843009, 10480⟩, queryPort := 10481, status := 6#9, info := [.int 0], details := ⟨[], [], []⟩,
+    refreshedAt := some 20, version := 0 }
+def abaState : AbsState := { servers := (∅ : ExtTreeMap Nat SRow).insert abaStale.addr.key ⟨abaStale, 5⟩ }
+
+/-- the ABA history on concrete records: a listed server (version 3, refreshed at 5) is being probed; it is removed and
+re-registered by a heartbeat at 20 with new info (saved at version 1); the probe's retry `Update` then stores the *old*
+record (old info, refresh time 5, old status + `details_retry`) at version 4 over the registration of 20. -/
+theorem aba_witness :
+    abaState.getRow abaStale.addr = some ⟨abaStale, 5⟩ ∧ abaFresh.addr = abaStale.addr ∧ abaFresh.version < abaStale.version ∧
+    abaFresh.info ≠ abaStale.info ∧
+    (((Call.addServer abaFresh fun _ => none).exec ((Call.removeServer abaStale fun x => some x).exec abaState 10).1 20).1.getRow abaStale.addr
+        = some ⟨{ abaFresh with version := 1 }, 20⟩) ∧
+    ((Call.updateServer (handleRetry .details abaStale) fun x => some (handleRetry .details x)).exec
+        ((Call.addServer abaFresh fun _ => none).exec ((Call.removeServer abaStale fun x => some x).exec abaState 10).1 20).1 30).1.getRow abaStale.addr =
+      some ⟨{ abaStale with status := 94#9, version := 4 }, 30⟩ := by
+  have hrow : abaState.getRow abaStale.addr = some ⟨abaStale, 5⟩ := by
+    simp only [AbsState.getRow, abaState, ExtTreeMap.getElem?_insert_self]
+  obtain ⟨_, h2, h3⟩ := aba_overwrites_fresh_registration abaState 10 20 30 (handleRetry .details) (handleRetry_stable _)
+    abaStale 5 abaFresh hrow rfl (by decide)
+  refine ⟨hrow, rfl, by decide, by decide, h2, ?_⟩
+  rw [h3]
+  simp only [AbsState.getRow, ExtTreeMap.getElem?_insert_self]
+  decide
+
+/-! ## the conflict callbacks of the other use cases -/
+
+/-- **keepalive (`renewserver.Execute`), conflict callback.**  History: the keepalive performs its `instances.Get` and
+`servers.Get` (returning `r0`); one call `W` of another component commits, leaving `w` at the address; the keepalive
+runs on (`clock.Now()`, `Update(svr.Refresh(now), func(s){ s.Refresh(now) })`).  Final state: `W`'s state with
+`{ w with refreshedAt := now }` stored one version up — `Refresh` applied to the **latest** record; status, info,
+details and query port written by `W` survive; nothing else changes. -/
+theorem renew_conflict_refreshes_latest {β : Type} (s0 : AbsState) (t0 tW now : Int) (id srcIp : Nat) (a : Addr) (ui : Int)
+    (r0 : Server) (u0 : Int) (W : Call β) (w : Server) (uw : Int)
+    (hins : s0.instances[id]? = some (a, ui)) (hip : a.ip = srcIp)
+    (hrow0 : s0.getRow a = some ⟨r0, u0⟩) (ha0 : r0.addr = a)
+    (hW : (W.exec s0 tW).1.getRow a = some ⟨w, uw⟩) (haw : w.addr = a)
+    (hmono : w.version > r0.version ∨ w = r0) :
+    raceRun (renew id srcIp) 2 t0 W tW now s0 =
+      ({ servers := (W.exec s0 tW).1.servers.insert a.key ⟨{ w with refreshedAt := some now, version := w.version + 1 }, now⟩,
+         instances := (W.exec s0 tW).1.instances, queue := (W.exec s0 tW).1.queue, nextId := (W.exec s0 tW).1.nextId },
+       .ok ()) := by
+  unfold raceRun renew
+  simp only [stepN_succ, stepN_zero, step1_call, exec_insGet, exec_getServer, exec_now, exec_updateServer, AbsState.insGet,
+    hins, hip, ne_eq, not_true_eq_false, if_false, AbsState.get, hrow0, Prog.run_call]
+  have := update_eq (W.exec s0 tW).1 now (fun s => { s with refreshedAt := some now }) r0 w uw (fun _ => ⟨rfl, rfl⟩)
+    (ha0 ▸ hW) (haw.trans ha0.symm) hmono
+  rw [this, ha0]
+  rfl
+
+/-- **heartbeat (`reportserver.Execute`), callback of its `Add`.**  History: the report's `Get` returned `r0`; one call
+`W` of another component commits, leaving `w`; the report runs its next two calls (`clock.Now()`,
+`Add(reported(r0), func(existing){ existing.UpdateInfo; Refresh; UpdateDiscoveryStatus(Master|Info) })`).  State after
+the `Add`: `W`'s state with `reported info now w` stored one version up.  `Add` consults its callback whenever a
+record exists (servers.go:98-106), so this holds for *any* `w` — no version hypothesis, also across remove + re-add. -/
+theorem report_conflict_applies_to_latest {β : Type} (s0 : AbsState) (t0 tW now : Int) (zeroInfo : Fields) (maxRetries : Int)
+    (req : ReportReq) (info : Fields) (r0 : Server) (u0 : Int) (W : Call β) (w : Server) (uw : Int)
+    (hinfo : req.info = some info)
+    (hrow0 : s0.getRow req.addr = some ⟨r0, u0⟩) (ha0 : r0.addr = req.addr)
+    (hW : (W.exec s0 tW).1.getRow req.addr = some ⟨w, uw⟩) (haw : w.addr = req.addr) :
+    (stepN 2 (stepN 1 (report zeroInfo maxRetries req) s0 t0).2
+        (W.exec (stepN 1 (report zeroInfo maxRetries req) s0 t0).1 tW).1 now).1 =
+      { servers := (W.exec s0 tW).1.servers.insert req.addr.key ⟨{ reported info now w with version := w.version + 1 }, now⟩,
+        instances := (W.exec s0 tW).1.instances, queue := (W.exec s0 tW).1.queue, nextId := (W.exec s0 tW).1.nextId } := by
+  unfold report
+  simp only [stepN_succ, stepN_zero, step1_call, exec_getServer, exec_now, exec_addServer, AbsState.get, hrow0, hinfo]
+  have hW' : (W.exec s0 tW).1.getRow (reported info now r0).addr = some ⟨w, uw⟩ := by
+    show (W.exec s0 tW).1.getRow r0.addr = _
+    rw [ha0]; exact hW
+  rw [add_existing_eq (W.exec s0 tW).1 now (reported info now r0) (reported info now) w uw hW']
+  have hk : (reported info now w).addr.key = req.addr.key := congrArg Addr.key haw
+  rw [hk]
+  rfl
+
+/-- the same when the report's `Get` found nothing (it built a new record with `NewFromAddr`) and another component
+registered the address in the meantime (two first heartbeats, or a REST submission): the callback is applied to the
+record that is there, the freshly built one is dropped -/
+theorem report_conflict_on_first_registration {β : Type} (s0 : AbsState) (t0 tW now : Int) (zeroInfo : Fields) (maxRetries : Int)
+    (req : ReportReq) (info : Fields) (n0 : Server) (W : Call β) (w : Server) (uw : Int)
+    (hinfo : req.info = some info)
+    (hrow0 : s0.getRow req.addr = none) (hnew : newServer zeroInfo req.addr req.queryPort = some n0)
+    (hW : (W.exec s0 tW).1.getRow req.addr = some ⟨w, uw⟩) (haw : w.addr = req.addr) :
+    (stepN 2 (stepN 1 (report zeroInfo maxRetries req) s0 t0).2
+        (W.exec (stepN 1 (report zeroInfo maxRetries req) s0 t0).1 tW).1 now).1 =
+      { servers := (W.exec s0 tW).1.servers.insert req.addr.key ⟨{ reported info now w with version := w.version + 1 }, now⟩,
+        instances := (W.exec s0 tW).1.instances, queue := (W.exec s0 tW).1.queue, nextId := (W.exec s0 tW).1.nextId } := by
+  have hn0 : n0.addr = req.addr := by
+    unfold newServer at hnew
+    split at hnew
+    · exact absurd hnew (by simp)
+    · cases hnew; rfl
+  unfold report
+  simp only [stepN_succ, stepN_zero, step1_call, exec_getServer, exec_now, exec_addServer, AbsState.get, hrow0, hinfo, hnew]
+  have hW' : (W.exec s0 tW).1.getRow (reported info now n0).addr = some ⟨w, uw⟩ := by
+    show (W.exec s0 tW).1.getRow n0.addr = _
+    rw [hn0]; exact hW
+  rw [add_existing_eq (W.exec s0 tW).1 now (reported info now n0) (reported info now) w uw hW']
+  have hk : (reported info now w).addr.key = req.addr.key := congrArg Addr.key haw
+  rw [hk]
+  rfl
+
+/-- **`maybeDiscoverPort`, conflict callback refuses.**  History: the report queued the port probe (first call); one
+call `W` commits, leaving a newer record `w` that has `port` or `port_retry`; then the report's
+`Update(pending + port_retry, callback)`.  The callback refuses, the `Update` writes **nothing**: the final state is
+exactly `W`'s. -/
+theorem discover_conflict_refuses_when_marked {β : Type} (s0 : AbsState) (t0 tW now : Int) (maxRetries : Int) (svr : Server)
+    (W : Call β) (w : Server) (uw : Int)
+    (hnone : Status.hasNone svr.status (Status.port ||| Status.portRetry) = true)
+    (hW : (W.exec (s0.enqueue t0 ⟨svr.addr, svr.addr.port, .port, 0, maxRetries⟩ none none) tW).1.getRow svr.addr = some ⟨w, uw⟩)
+    (hver : w.version > svr.version)
+    (hmark : Status.hasAny w.status (Status.port ||| Status.portRetry) = true) :
+    raceRun (maybeDiscoverPort maxRetries svr) 1 t0 W tW now s0 =
+      ((W.exec (s0.enqueue t0 ⟨svr.addr, svr.addr.port, .port, 0, maxRetries⟩ none none) tW).1, ()) := by
+  unfold raceRun maybeDiscoverPort
+  simp only [hnone, Bool.not_true, Bool.false_eq_true, if_false, stepN_succ, stepN_zero, step1_call, exec_enqueue,
+    Prog.run_call, exec_updateServer]
+  rw [update_refused_eq _ now { svr with status := Status.update svr.status Status.portRetry } _ w uw hW hver
+    (by simp only [hmark, if_true])]
+  rfl
+
+/-- … and when the newer record has neither mark, `port_retry` is added to the **latest** record (not to the copy the
+report holds) -/
+theorem discover_conflict_marks_latest {β : Type} (s0 : AbsState) (t0 tW now : Int) (maxRetries : Int) (svr : Server)
+    (W : Call β) (w : Server) (uw : Int)
+    (hnone : Status.hasNone svr.status (Status.port ||| Status.portRetry) = true)
+    (hW : (W.exec (s0.enqueue t0 ⟨svr.addr, svr.addr.port, .port, 0, maxRetries⟩ none none) tW).1.getRow svr.addr = some ⟨w, uw⟩)
+    (haw : w.addr = svr.addr) (hver : w.version > svr.version)
+    (hmark : Status.hasAny w.status (Status.port ||| Status.portRetry) = false) :
+    raceRun (maybeDiscoverPort maxRetries svr) 1 t0 W tW now s0 =
+      (let sW := (W.exec (s0.enqueue t0 ⟨svr.addr, svr.addr.port, .port, 0, maxRetries⟩ none none) tW).1
+       { servers := sW.servers.insert svr.addr.key
+           ⟨{ w with status := Status.update w.status Status.portRetry, version := w.version + 1 }, now⟩,
+         instances := sW.instances, queue := sW.queue, nextId := sW.nextId }, ()) := by
+  unfold raceRun maybeDiscoverPort
+  simp only [hnone, Bool.not_true, Bool.false_eq_true, if_false, stepN_succ, stepN_zero, step1_call, exec_enqueue,
+    Prog.run_call, exec_updateServer]
+  rw [update_resolved_eq _ now { svr with status := Status.update svr.status Status.portRetry } _ w
+    { w with status := Status.update w.status Status.portRetry } uw hW hver
+    (by simp only [hmark, Bool.false_eq_true, if_false])]
+  have hk : ({ w with status := Status.update w.status Status.portRetry } : Server).addr.key = svr.addr.key := congrArg Addr.key haw
+  rw [hk]
+  rfl
+
+/-- instance of `probe_retry_race` (its hypotheses are satisfiable by the code's own calls): the concurrent call is the
+keepalive's `Update`.  Both changes are in the stored record: the keepalive's refresh time and the probe's retry mark,
+two versions up; info, details, query port and all other status bits are those of `r0` — nothing is delisted. -/
+theorem keepalive_survives_probe_retry (s0 : AbsState) (t0 tW now : Int) (prb : Probe) (r0 : Server) (u0 : Int)
+    (hrow0 : s0.getRow prb.addr = some ⟨r0, u0⟩) (ha0 : r0.addr = prb.addr) (h : prb.retries < prb.maxRetries) :
+    (raceRun (probe prb none) 1 t0
+        (Call.updateServer { r0 with refreshedAt := some tW } fun s => some { s with refreshedAt := some tW }) tW now s0).1.getRow prb.addr =
+      some ⟨{ r0 with refreshedAt := some tW, status := retryStatus prb.goal r0.status, version := r0.version + 1 + 1 }, now⟩ := by
+  have hW := update_commit_row s0 tW (fun s => { s with refreshedAt := some tW }) (fun _ => ⟨rfl, rfl⟩) prb.addr r0 u0 hrow0 ha0
+  rw [probe_retry_race s0 t0 tW now prb r0 u0 _ _ tW hrow0 ha0 hW ha0 (Or.inl (by show r0.version + 1 > r0.version; omega)) h]
+  simp only [AbsState.getRow, ExtTreeMap.getElem?_insert_self]
+  rfl
+
+/-- instance of `renew_conflict_refreshes_latest`, the opposite order: the probe's retry `Update` commits between the
+keepalive's `Get` and its `Update`; the retry mark survives the keepalive -/
+theorem retry_mark_survives_keepalive (s0 : AbsState) (t0 tW now : Int) (id srcIp : Nat) (a : Addr) (ui : Int) (g : Goal)
+    (r0 : Server) (u0 : Int)
+    (hins : s0.instances[id]? = some (a, ui)) (hip : a.ip = srcIp)
+    (hrow0 : s0.getRow a = some ⟨r0, u0⟩) (ha0 : r0.addr = a) :
+    (raceRun (renew id srcIp) 2 t0
+        (Call.updateServer (handleRetry g r0) fun s => some (handleRetry g s)) tW now s0).1.getRow a =
+      some ⟨{ r0 with refreshedAt := some now, status := retryStatus g r0.status, version := r0.version + 1 + 1 }, now⟩ := by
+  have hW := update_commit_row s0 tW (handleRetry g) (handleRetry_keeps g) a r0 u0 hrow0 ha0
+  rw [renew_conflict_refreshes_latest s0 t0 tW now id srcIp a ui r0 u0 _ _ tW hins hip hrow0 ha0 hW ha0
+    (Or.inl (by show r0.version + 1 > r0.version; omega))]
+  simp only [AbsState.getRow, ExtTreeMap.getElem?_insert_self]
+  rfl
+
+/-- a port success always leaves the `port` bit (all 512 words) -/
+theorem port_success_marks_port : ∀ w : Status, Status.hasAny (successStatus .port w) (Status.port ||| Status.portRetry) = true := by
+  decide
+
+/-- instance of `discover_conflict_refuses_when_marked`: a port probe succeeded between the report's queueing and its
+marking; the discovered query port and status stay as the probe stored them -/
+theorem discover_refuses_after_port_success (s0 : AbsState) (t0 tW now : Int) (maxRetries : Int) (svr : Server) (u : Int)
+    (res : ProbeResult)
+    (hnone : Status.hasNone svr.status (Status.port ||| Status.portRetry) = true)
+    (hrow : s0.getRow svr.addr = some ⟨svr, u⟩) :
+    (raceRun (maybeDiscoverPort maxRetries svr) 1 t0
+        (Call.updateServer (handleSuccess .port res tW svr) fun x => some (handleSuccess .port res tW x)) tW now s0).1.getRow svr.addr =
+      some ⟨{ handleSuccess .port res tW svr with version := svr.version + 1 }, tW⟩ := by
+  have hrow' : (s0.enqueue t0 ⟨svr.addr, svr.addr.port, .port, 0, maxRetries⟩ none none).getRow svr.addr = some ⟨svr, u⟩ := hrow
+  have hW := update_commit_row _ tW (handleSuccess .port res tW) (handleSuccess_keeps _ _ _) svr.addr svr u hrow' rfl
+  rw [discover_conflict_refuses_when_marked s0 t0 tW now maxRetries svr _ _ tW hnone hW
+    (by show svr.version + 1 > svr.version; omega)
+    (by show Status.hasAny (handleSuccess .port res tW svr).status _ = true
+        rw [(handleSuccess_fields .port res tW svr).2.2.2.2.1]; exact port_success_marks_port _)]
+  exact hW
+
+/-- non-vacuity of the run-level hypotheses: a registry holding the probed server, a probe with budget left; a record
+without port marks -/
+example : ∃ (s : AbsState) (prb : Probe) (latest : Server) (u : Int),
+    s.getRow prb.addr = some ⟨latest, u⟩ ∧ latest.addr = prb.addr ∧ prb.retries < prb.maxRetries ∧
+    Status.hasNone (6#9 : Status) (Status.port ||| Status.portRetry) = true :=
+  ⟨abaState, ⟨abaStale.addr, 10481, .details, 0, 2⟩, abaStale, 5, aba_witness.1, rfl, by decide, by decide⟩
+
+/-- non-vacuity of the keepalive history's hypotheses -/
+example : ∃ (s0 : AbsState) (id srcIp : Nat) (a : Addr) (ui : Int) (r0 : Server) (u0 : Int),
+    s0.instances[id]? = some (a, ui) ∧ a.ip = srcIp ∧ s0.getRow a = some ⟨r0, u0⟩ ∧ r0.addr = a :=
+  ⟨{ abaState with instances := (∅ : ExtTreeMap Nat (Addr × Int)).insert 7 (abaStale.addr, 5) }, 7, 16843009, abaStale.addr, 5,
+    abaStale, 5, by simp only [ExtTreeMap.getElem?_insert_self], rfl, aba_witness.1, rfl⟩
+
+/-! ## `expFloor n = ⌊e^n⌋` (Mathlib, no floating point) -/
+
+/-- **"ready after floor(e^retries) seconds"**, for the retry counts of the property's quantifier: the model's table
+entry is the integer part of the real number `e^n` for `n ≤ 5` (`Lemmas/C13Exp.lean`: from Mathlib's bounds
+`2.7182818283 < e < 2.7182818286`; no floating point involved).  With `expFloor_matches_go` this also says that Go's
+`math.Exp` followed by the truncating conversion yields `⌊e^n⌋` for these `n`. -/
+theorem expFloor_brackets_exp (n : ℕ) (hn : n ≤ 5) :
+    ((expFloor (n : Int) : Int) : ℝ) ≤ Real.exp n ∧ Real.exp n < ((expFloor (n : Int) : Int) : ℝ) + 1 :=
+  C13Run.expFloor_brackets_exp n hn
 
 /-- the nine status bits and their names are the ones of `ds.Members()` / `BitString()` in the source
 (regenerated `Gen/Facts.lean`) -/
